@@ -130,6 +130,7 @@ func main() {
 	hashCap := flag.Int("hashcap", 400000, "max hashes kept")
 	stopAfter := flag.Int("stop-after", 8, "stop the batch after this many violations")
 	list := flag.Bool("list", false, "list scenarios")
+	dumpHashes := flag.Bool("dumphashes", false, "print seed, event hash and step count of every run (determinism self-test)")
 	raceLog := flag.String("racelog", "", "GORACE log_path of this process: scan it after every run (C13)")
 	libPrefix := flag.String("libprefix", "/repo", "path prefix of library source files in race reports")
 	flag.Parse()
@@ -171,6 +172,9 @@ func main() {
 		wantDesc := i < 3
 		o := core.RunOne(sc, seed, core.RunOpts{Thorough: *thorough, WantDesc: wantDesc, Only: *only})
 		raceViolation(o)
+		if *dumpHashes {
+			fmt.Printf("%d %016x %d %s\n", seed, o.Hash, o.Steps, oracleOf(o))
+		}
 		res.Runs++
 		res.Steps += int64(o.Steps)
 		res.SimNs += o.SimNs
